@@ -7,7 +7,13 @@ from circuits.net.events import write
 from .utils import dump_event, dump_value, load_event, load_value
 
 
-DELIMITER = b'~~~'  # FIXME: delimiter could be part of regular message
+DELIMITER = b'~~~'
+
+
+def encode_packet(s):
+    # A "~" in a JSON text is always inside a string, where the escape
+    # sequence means the same: the delimiter never occurs inside a packet.
+    return s.replace('~', '\\u007e').encode('utf-8') + DELIMITER
 
 
 class Protocol(Component):
@@ -63,7 +69,7 @@ class Protocol(Component):
             id = self.__nid
             self.__nid += 1
 
-            packet = dump_event(event, id).encode('utf-8') + DELIMITER
+            packet = encode_packet(dump_event(event, id))
             self.__send(packet)
 
             if not getattr(event, 'node_without_result', False):
@@ -77,7 +83,7 @@ class Protocol(Component):
     def send_result(self, id, value):
         value.node_call_id = id
         value.node_sock = self.__sock
-        packet = dump_value(value).encode('utf-8') + DELIMITER
+        packet = encode_packet(dump_value(value))
         self.__send(packet)
 
     def __send(self, packet):
